@@ -20,6 +20,11 @@ def _one(job):
 
     from real import matrix
 
+    if (env or {}).get("_DROP_PYTHONPATH"):
+        # children started from here must not find execnet through the environment (the interpreter is not run with -I
+        # in this job, so that PYTHONUTF8 / PYTHONCOERCECLOCALE reach it); plain popen children get the import directory explicitly
+        os.environ.pop("PYTHONPATH", None)
+        os.chdir("/")
     group = execnet.Group()
     try:
         gw = matrix.make_gateway(group, kind, execmodel, python)
@@ -57,7 +62,7 @@ def _control(job):
 
 def run_matrix(jobs, control_jobs):
     ctx = mp.get_context("spawn")
-    with ctx.Pool(min(8, max(1, len(jobs)))) as pool:
+    with ctx.Pool(min(8, max(1, len(jobs))), maxtasksperchild=1) as pool:  # jobs change os.environ: one process per job
         res = pool.map(_one, jobs, chunksize=1)
         ctl = pool.map(_control, control_jobs, chunksize=1) if control_jobs else []
     return res, ctl
